@@ -44,6 +44,7 @@ def dims(topo):
         d.append(("text%d" % i, [None, 273.15, 285.0]))
         d.append(("do%d" % i, [None, 30.0]))
         d.append(("rev%d" % i, [False, True]))
+    d.append(("fluid", ["water", "lgas"]))
     d.append(("mode", ["sequential", "bidirectional", "heat"]))
     d.append(("numba", [False, True]))
     d.append(("ambient", [293.15, 283.0]))
@@ -84,9 +85,10 @@ def topo_spec(c):
         ops.append({"op": "pipe", "id": "p%d" % i, "from": "j%d" % fa, "to": "j%d" % fb, "length_km": 0.2 + 0.1 * i, "d_mm": dmm,
                     "sections": pt["sec%d" % i], "u": pt["u%d" % i], "text_k": pt["text%d" % i],
                     "do_mm": None if pt["do%d" % i] is None else dmm + pt["do%d" % i]})
+    fluid = pt.get("fluid", "water")
     for j, m in tp["sinks"].items():
-        ops.append({"op": "sink", "id": "s%d" % j, "junction": "j%d" % j, "mdot": m})
-    return {"fluid": "water", "ops": ops}, {"mode": pt["mode"], "use_numba": pt["numba"], "ambient_temperature": pt["ambient"]}
+        ops.append({"op": "sink", "id": "s%d" % j, "junction": "j%d" % j, "mdot": m * (0.04 if fluid != "water" else 1.0)})
+    return {"fluid": fluid, "ops": ops}, {"mode": pt["mode"], "use_numba": pt["numba"], "ambient_temperature": pt["ambient"]}
 
 
 def run_case(case):
